@@ -34,6 +34,14 @@ STARTING = ("prefail", "prepanic", "postfail", "prekill", "postkill")
 #   ["x"] deliver the cause   ["g"] release post_stop   ["k", role] kill()   ["s"] stop()  ["d"] drain()
 #   ["a"] advance the clock past the short timeouts
 
+# children linked to the actor when it exits: kind -> status the model is given
+KID_STATUS = {"run": "Running", "busy": "Running", "drain": "Draining", "stopping": "Stopping"}
+
+
+def kid_kinds(k):
+    return ["run"] * k if isinstance(k, int) else list(k)
+
+
 def translate(scn):
     """abstract scenario -> harness line, model scenario, and the bookkeeping to compare them.
     The only knowledge used here beyond the model: when the *send part* of a *_and_wait call
@@ -142,10 +150,12 @@ def translate(scn):
             mops += [f"OpTimeout {m}" for m in short] + ["OpSettle"]
         else:
             raise ValueError(op)
-    line = (f"wait cause={cause} sup={1 if sup else 0} kids={scn['kids']} park={1 if park else 0} ; "
+    kinds = kid_kinds(scn["kids"])
+    line = (f"wait cause={cause} sup={1 if sup else 0} kids={','.join(kinds)} park={1 if park else 0} ; "
             + " ; ".join(hops))
     s0 = "Starting" if cause in STARTING else "Running"
-    args = f"{s0} [{'; '.join(ws)}] {mc} {'true' if sup else 'false'} [{'; '.join(mops)}]"
+    ks = "[" + "; ".join(KID_STATUS[k] for k in kinds) + "]"
+    args = f"{s0} [{'; '.join(ws)}] {mc} {'true' if sup else 'false'} {ks} [{'; '.join(mops)}]"
     return {"line": line, "args": args, "idmap": idmap, "expect_err": expect_err, "mc": mc,
             "sup": sup, "n_model_waiters": len(ws)}
 
@@ -222,7 +232,8 @@ def gen_scenario(rng):
                 ops.append(["a"])
             else:
                 ops.append(waiter("after"))
-    return {"cause": cause, "sup": sup, "kids": rng.choice([1, 1, 2]), "park": park, "ops": ops}
+    kids = [rng.choice(["run", "busy", "drain", "drain", "stopping"]) for _ in range(rng.choice([1, 1, 2, 3]))]
+    return {"cause": cause, "sup": sup, "kids": kids, "park": park, "ops": ops}
 
 
 def exhaustive_small():
@@ -301,7 +312,7 @@ def thr_translate(scn):
     paused.clear()
     n = (max(started) + 1) if started else 0
     line = f"thr sup={1 if sup else 0} exit={plan} ; " + " ; ".join(hops)
-    init = f"(scenario_init Running [{'; '.join(['W0'] * n)}] CStop {'true' if sup else 'false'})"
+    init = f"(scenario_init_k Running [{'; '.join(['W0'] * n)}] CStop {'true' if sup else 'false'} [Running])"
     return {"line": line, "labels": "[" + "; ".join(labels) + "]", "init": init, "sup": sup}
 
 
@@ -348,6 +359,22 @@ def exhaustive_thr():
                         ops.append(["rx"])
                     ops += [["rw", 1], ["rw", 0], ["ws", 3 if (plan != "none" and mid) else 2, "none"]]
                     out.append({"sup": sup, "exit": plan, "ops": ops})
+    return out
+
+
+def exhaustive_kids():
+    """every exit cause x supervisor x one linked child of each kind (idle, busy, Draining, Stopping);
+    one task waiter and one inline waiter registered before the exit, one wait after"""
+    out = []
+    for cause in CAUSES:
+        for sup in ((False,) if cause in ("prefail", "prepanic", "prekill") else (False, True)):
+            for kid in ("run", "busy", "drain", "stopping"):
+                ops = [["w", "wait", "none", ""], ["w", "inline", "none", ""], ["x"]]
+                park = cause == "stopkill"
+                if park:
+                    ops.append(["k", "release"])
+                ops.append(["w", "wait", "none", ""])
+                out.append({"cause": cause, "sup": sup, "kids": [kid], "park": park, "ops": ops})
     return out
 
 
@@ -403,6 +430,8 @@ def run(chk):
     if quick:
         ex = [e for i, e in enumerate(ex) if i % 3 == chk.seed % 3]
     scns += [("exhaustive", s) for s in ex]
+    if not (scns and scns[0][0] == "replay"):
+        scns += [("exhaustive-kids", s) for s in exhaustive_kids()]
     n_rand = 0 if scns and scns[0][0] == "replay" else (1500 if quick else 12000) * factor
     scns += [("random", gen_scenario(chk.rng)) for _ in range(n_rand)]
 
@@ -441,6 +470,8 @@ def run(chk):
         mv = obs_view(m_obs)
         n_before = sum(1 for o in scn["ops"] if o[0] == "w")
         chk.count("cause." + scn["cause"])
+        for kk in kid_kinds(scn["kids"]):
+            chk.count("kid." + kk)
         chk.count("source." + src.split(":")[0])
         for o in scn["ops"]:
             chk.count("op." + o[0] + ("." + o[1] if o[0] == "w" else ""))
